@@ -22,7 +22,8 @@ import common
 LEVEL = 'proof'
 LEAN_MODULES = ['MpycV.Props.C14']
 LEAN_NAMESPACES = ['MpycV.C14']
-REQUIRED_THEOREMS = ['dealt_degree_exact_generic', 'payload_uniform', 'no_share_in_clear']
+REQUIRED_THEOREMS = ['dealt_degree_exact_generic', 'payload_uniform', 'no_share_in_clear', 'point_zero_share_is_secret',
+                     'last_row_is_secret_when_m_eq_p']
 RULE = ('case = one random_split call made by the runtime (origin _distribute/_reshare/…, dealer, batch) in a run (corpus '
         'program, m, t >= 1, PRSS on/off, schedule seed); distinct = (run, dealer, call index); non-trivial = t >= 1 and the '
         'dealing reached the wire (m - 1 subshare rows found under its label)')
